@@ -85,7 +85,7 @@ theorem history (ops : List Op) (s : St) (hs : Coherent s.tree) (hp : PreAll ops
 
 
 /-- The copy handed out by `copy_tree_structure` is a coherent program of its own. -/
-theorem copy_result_coherent (p : Path) (kp : Bool) (s : St) (c : T)
+theorem copy_result_coherent (p : Path) (kp : CopyPar) (s : St) (c : T)
     (h : (applyR (.copy p kp) s).out = some c) : Coherent c := by
   have hgen : ∀ (q : Path) (t : T) (r : Loc), atPath ((Op.copy p kp).loc s.next) q t = some r →
       ∀ c, r.out = some c → Coherent c := by
@@ -111,6 +111,40 @@ theorem copy_result_coherent (p : Path) (kp : Bool) (s : St) (c : T)
           simp only [hr', Option.some.injEq] at hr
           subst hr
           exact ih d r' hr' c hc
+  simp only [applyR] at h
+  cases hr : atPath ((Op.copy p kp).loc s.next) (Op.copy p kp).target s.tree with
+  | none => simp [hr] at h
+  | some r => simp only [hr] at h; exact hgen _ _ r hr c h
+
+/-- the copy's root has exactly the requested parent and no recorded position -/
+theorem copy_parent_requested (p : Path) (kp : CopyPar) (s : St) (c : T)
+    (h : (applyR (.copy p kp) s).out = some c) :
+    ∃ n, locate s.tree p = some n ∧ c.info.par = kp.request n ∧ c.info.pidx = none := by
+  have hgen : ∀ (q : Path) (t : T) (r : Loc), atPath ((Op.copy p kp).loc s.next) q t = some r →
+      ∀ c, r.out = some c → ∃ n, locate t q = some n ∧ c.info.par = kp.request n ∧ c.info.pidx = none := by
+    intro q
+    induction q with
+    | nil =>
+      intro t r hr c hc
+      simp only [atPath, Op.loc, copyLoc, Option.some.injEq] at hr
+      subst hr
+      simp only [Option.some.injEq] at hc
+      subst hc
+      exact ⟨t, rfl, (copy_spec.1 t _ _ _).2.2.2, (copy_spec.1 t _ _ _).2.2.1⟩
+    | cons k q ih =>
+      intro t r hr c hc
+      simp only [atPath] at hr
+      cases hk : t.kids[k]? with
+      | none => simp [hk] at hr
+      | some d =>
+        simp only [hk] at hr
+        cases hr' : atPath ((Op.copy p kp).loc s.next) q d with
+        | none => simp [hr'] at hr
+        | some r' =>
+          simp only [hr', Option.some.injEq] at hr
+          subst hr
+          obtain ⟨n, hn, hh⟩ := ih d r' hr' c hc
+          exact ⟨n, by simp [locate, hk, hn], hh⟩
   simp only [applyR] at h
   cases hr : atPath ((Op.copy p kp).loc s.next) (Op.copy p kp).target s.tree with
   | none => simp [hr] at h
